@@ -30,10 +30,55 @@ def codec_stage(run, tmp, hx, known, name, fam, module="TraceCodec"):
     v["rejs"] = mine
     run.add_validation(name, v, summary)
     V.judge(run, known, mine, shards, dict(hx=hxargs, seed=run.seed, tier=run.tier, module=module))
+    binding_selftest(run, tmp, shards, module, name, set(r[0] for r in v["rejs"]))
+
+
+def binding_selftest(run, tmp, shards, module, name, already):
+    """Demonstrate the binding: corrupt recorded fields of good events and
+    require TLC to reject exactly those events."""
+    evs = []
+    for path in shards:
+        for line in open(path):
+            e = V.json.loads(line)
+            if e.get("ev") == "rt" and e["id"] not in already and e.get("dskip") == 0 and e.get("derr") == 0 and e.get("dpanic") == 0 and len(line) < 20000:
+                evs.append(e)
+            if len(evs) >= 12:
+                break
+        if len(evs) >= 12:
+            break
+    if not evs:
+        return
+    want = {}
+    for i, e in enumerate(evs):
+        if i % 3 == 0:      # one octet too many on the wire
+            e["out"] = e["out"] + [78]
+            want[e["id"]] = "C02.wellformed"
+        elif i % 3 == 1:    # the decoder "returned" something else
+            e["r"] = {"n": [], "r": {"k": "int", "g": "int8", "b": [0, 0, 0, 0, 0, 0, 0, 77]}}
+            want[e["id"]] = "C01."
+        else:               # unchanged control event
+            want[e["id"]] = None
+    d = V.os.path.join(tmp, "selftest_" + name)
+    V.os.makedirs(d, exist_ok=True)
+    tp = V.os.path.join(d, "trace.00.ndjson")
+    with open(tp, "w") as f:
+        for e in evs:
+            f.write(V.json.dumps(e) + "\n")
+    v = V.validate_shards(tmp, module, [tp], "selftest_" + name)
+    got = {}
+    for (eid, code, _d) in v["rejs"]:
+        got.setdefault(eid, []).append(code)
+    for eid, pref in want.items():
+        codes = [c for c in got.get(eid, []) if not c.startswith("C02.dateUnit")]
+        if pref is None and codes:
+            raise V.Infra("binding self-test: control event %d rejected: %s" % (eid, codes))
+        if pref is not None and not any(c.startswith(pref) for c in codes):
+            raise V.Infra("binding self-test: corrupted event %d (%s) not rejected: %s" % (eid, pref, codes))
+    run.extra.setdefault("binding_selftest", []).append(dict(stage=name, corrupted=sum(1 for x in want.values() if x), rejected_as_expected=sum(1 for x in want.values() if x), controls_accepted=sum(1 for x in want.values() if x is None)))
 
 
 def scalar_mc(run, tmp):
-    r = V.model_check(tmp, "MCScalar", "MCScalar")
+    r = V.model_check(tmp, "MCScalar", "MCScalar_thorough" if run.tier == "thorough" else "MCScalar")
     run.add_mc("MCScalar", r, "every legal form of every int/long/double/date in the stated finite sets decodes to its value; minimal form is minimal; tag partition")
 
 
@@ -51,8 +96,8 @@ def plan_codec(fam, mc=None, note=""):
 PLANS = {
     "C01": plan_codec("c01", None, "round trips of generated zoo values recorded as rt events and validated by TLC against TraceCodec (SameCodes)"),
     "C02": plan_codec("c01", None, "encoder output of generated zoo values parsed by the TLA+ reference decoder (ParseWhole) and related to the value by Denotes"),
-    "C07": plan_codec("c07", None, "integer round trips validated by TLC: exactness and shortest form per wire kind"),
-    "C08": plan_codec("c08", None, "double round trips validated by TLC against the octet-level IEEE classification"),
+    "C07": plan_codec("c07", scalar_mc, "integer round trips validated by TLC: exactness and shortest form per wire kind"),
+    "C08": plan_codec("c08", scalar_mc, "double round trips validated by TLC against the octet-level IEEE classification"),
     "C09": plan_codec("c09", None, "string/binary round trips validated by TLC: payload, character counts, chunk boundaries"),
-    "C10": plan_codec("c10", None, "timestamp round trips validated by TLC at millisecond resolution"),
+    "C10": plan_codec("c10", scalar_mc, "timestamp round trips validated by TLC at millisecond resolution"),
 }
